@@ -15,6 +15,7 @@
 #include <string>
 #include <cstdint>
 #include <cstdio>
+#include <cstdlib>
 
 extern "C" {
 void AnnotateIgnoreSyncBegin(const char *, int) __attribute__((weak));
@@ -68,7 +69,10 @@ inline void pick_next_locked(int me) {
 	for(int k = 0; k < s.nthreads; k++) if(k != me && enabled(k)) en.push_back(k);
 	if(en.empty()) {
 		bool all_done = true; for(auto x : s.st) if(x != St::done) all_done = false;
-		if(!all_done) { s.verdict = "deadlock"; s.abort = true; }
+		if(!all_done) { s.verdict = "deadlock"; s.abort = true;
+			if(getenv("VERIF_SCHED_DEBUG")) { fprintf(stderr, "dsched: deadlock at step %llu progress %llu:", (unsigned long long)s.steps, (unsigned long long)s.progress);
+				for(int k = 0; k < s.nthreads; k++) fprintf(stderr, " t%d=%s(epoch %llu)", k, s.st[k] == St::runnable ? "runnable" : s.st[k] == St::blocked ? "blocked" : s.st[k] == St::spinning ? "spinning" : "done", (unsigned long long)s.spin_epoch[k]);
+				fprintf(stderr, "\n"); } }
 		s.current = -2;                // nobody: wakes the controller (and, on abort, everybody)
 		return;
 	}
@@ -107,6 +111,28 @@ inline void point() {
 	bool recheck = s.after_spin[tid]; s.after_spin[tid] = false;
 	yield_locked(lk, tid);
 	if(!recheck) s.op_pending[tid] = true;
+}
+
+// voluntary yield: another enabled thread runs if there is one (round robin), otherwise the caller continues
+inline void yield_now() {
+	if(tid < 0) return;
+	auto &s = S();
+	if(!s.active) return;
+	Ignore ig;
+	std::unique_lock<std::mutex> lk(s.bm);
+	if(s.abort) { lk.unlock(); throw Abort{}; }
+	if(++s.steps > s.max_steps) { s.verdict = "step-limit"; s.abort = true; s.current = -2; s.cv.notify_all(); lk.unlock(); throw Abort{}; }
+	if(s.op_pending[tid]) { s.progress++; s.op_pending[tid] = false; }
+	int next = -1;
+	for(int d = 1; d < s.nthreads; d++) { int k = (tid + d) % s.nthreads; if(s.st[k] == St::runnable || (s.st[k] == St::spinning && s.progress > s.spin_epoch[k])) { next = k; break; } }
+	if(next < 0) return;
+	if(s.st[next] == St::spinning) { s.st[next] = St::runnable; s.after_spin[next] = true; }
+	s.switches++;
+	s.current = next;
+	s.cv.notify_all();
+	int me = tid;
+	s.cv.wait(lk, [&] { return s.current == me || s.abort; });
+	if(s.abort) { lk.unlock(); throw Abort{}; }
 }
 
 // called from spin loops: the spinner is de-scheduled until another thread has made a step
